@@ -76,6 +76,9 @@ def run(tier, out):
 
 def replay(path, out):
     obj = json.load(open(path))["replay"]
+    if str(obj.get("component", "")).startswith("WriteTask"):
+        from checks import k_writetask
+        return k_writetask.replay(path, out)
     if obj.get("component") != "e2e":
         from checks import k_cmdoutput
         return k_cmdoutput.replay(path, out)
